@@ -445,7 +445,7 @@ def extract_inputs(job, prop_id):
                 m = re.match(r"IN_(\w+)\[(\d+)l?\]$", lhs)
                 if m and "data" in v:
                     try:
-                        vals.setdefault(m.group(1), {})[int(m.group(2))] = int(v["data"]) & 0xFF
+                        vals.setdefault(m.group(1), {})[int(m.group(2))] = int(str(v["data"]).rstrip("ulUL"))
                     except ValueError:
                         pass
                 elif re.match(r"IN_\w+$", lhs) and "data" in v and v.get("name") in ("integer",):
@@ -466,7 +466,11 @@ def write_replay(job, prop, pid, desc, vals):
             v = vals[k]
             if isinstance(v, dict):
                 n = max(v) + 1
-                f.write("%s=%s\n" % (k, "".join("%02x" % v.get(i, 0) for i in range(n))))
+                if all(0 <= x <= 255 for x in v.values()):
+                    f.write("%s=%s\n" % (k, "".join("%02x" % v.get(i, 0) for i in range(n))))
+                else:                               # wide array elements: one line per index
+                    for i in sorted(v):
+                        f.write("%s[%d]=%d\n" % (k, i, v[i]))
             else:
                 f.write("%s=%d\n" % (k, v))
     return path
